@@ -99,6 +99,10 @@ class ContainerBase:
     def mk_copy(self, copy_node: bool = False) -> ContainerBase:
         """Make a copy of self."""
         copied = copy.copy(self)
+        # observable properties (node) keep their data in a dictionary of the instance: the copy needs its own,
+        # otherwise writing copied.node also changes self.node (and notifies the observers of self)
+        copied._property_instance_data = {}  # noqa: SLF001
+        copied.node = self.node
         # copy the values deeply, otherwise the copy shares nested objects (e.g. MetricValue, lists) with self
         for prop_name, cprop in self.sorted_container_properties():
             value = cprop.get_actual_value(self)
